@@ -192,7 +192,10 @@ theorem Der.altL_cons {a b : G} {rest : List G} {Q : Post} (ha : Der Γ Δ Z F a
 theorem Der.altL_one {a : G} {Q : Post} (ha : Der Γ Δ Z F a Q) : Der Γ Δ Z F (altL [a]) Q := ha
 
 macro "der_alt" : tactic =>
-  `(tactic| repeat' (first | apply Der.altL_cons | apply Der.altL_one))
+  `(tactic| repeat' (apply Der.altL_cons))
+
+/-- transitivity chains over position facts (no arithmetic) -/
+macro "pos_chain" : tactic => `(tactic| grind [Pos.le_trans, Pos.le_refl])
 
 theorem Der.toks : ∀ ks : List Kind, Der Γ Δ Z F (Gram.toks ks) (PLeaf Z)
   | [] => Der.altL_nil
@@ -370,5 +373,226 @@ theorem Der.binTail' {op operand : G} {self : Nat} (hop : Der Γ Δ Z F op (PLea
     (ho : Der Γ Δ Z F operand (PReal Z)) (ht : Der Γ Δ Z F (.ref self) (PTail Z)) :
     Der Γ Δ Z F (Gram.binTail op operand self) (PTail Z) :=
   Der.binTail hop (ho.weaken (fun _ _ _ h => Or.inl h)) ht
+
+/-! ## the common shapes of the actions -/
+
+/-- a node spanning from item `a` to item `b` (which starts no earlier) -/
+theorem span_real {lo m1 hi : Pos} {k i : String} {a b : Tree} {kids : List Tree} {attrs : List String}
+    (hk : groupKinds.contains k = false) (hs : selKindsR.contains k = false)
+    (ha : PItem Z lo m1 a) (hm : m1.le hi = true) (hb : NodeOK Z b) (hab : a.rng.s.le b.rng.s = true)
+    (hkids : NodeOKL Z kids) : PReal Z lo hi (mk k i (Range.span a.rng b.rng) kids attrs) := by
+  obtain ⟨a1, a2, _, _, _, _⟩ := ha.facts
+  obtain ⟨b1, b2⟩ := hb.rng
+  refine PReal.mk_plain hk hs a1 ?_ ?_ b2 hkids
+  · simp only [Range.span]; exact Pos.le_trans a2 hm
+  · simp only [Range.span, Range.ok] at b1 ⊢; exact Pos.le_trans hab b1
+
+/-- … with a selection range -/
+theorem span_real_sel {lo m1 hi : Pos} {k i : String} {a b n : Tree} {kids : List Tree} {attrs : List String}
+    (hk : groupKinds.contains k = false)
+    (ha : PItem Z lo m1 a) (hm : m1.le hi = true) (hb : NodeOK Z b) (hab : a.rng.s.le b.rng.s = true)
+    (hkids : NodeOKL Z kids) (hn : NodeOK Z n) (h1 : a.rng.s.le n.rng.s = true) (h2 : n.rng.e.le b.rng.e = true) :
+    PReal Z lo hi (mk k i (Range.span a.rng b.rng) kids attrs (some n.rng)) := by
+  obtain ⟨a1, a2, _, _, _, _⟩ := ha.facts
+  obtain ⟨b1, b2⟩ := hb.rng
+  refine PReal.mk_sel hk a1 ?_ ?_ b2 hkids hn.rng.1 ?_
+  · simp only [Range.span]; exact Pos.le_trans a2 hm
+  · simp only [Range.span, Range.ok] at b1 ⊢; exact Pos.le_trans hab b1
+  · simp only [Range.within, Range.span, Bool.and_eq_true]; exact ⟨h1, h2⟩
+
+/-- a node with the range of one item -/
+theorem wrap_real {lo hi : Pos} {k i : String} {a : Tree} {kids : List Tree} {attrs : List String}
+    (hk : groupKinds.contains k = false) (hs : selKindsR.contains k = false)
+    (ha : PItem Z lo hi a) (hkids : NodeOKL Z kids) : PReal Z lo hi (mk k i a.rng kids attrs) := by
+  obtain ⟨a1, a2, a3, a4, _, _⟩ := ha.facts
+  exact PReal.mk_plain hk hs a1 a2 a3 a4 hkids
+
+theorem NodeOKL.one {v : Tree} (h : NodeOK Z v) : NodeOKL Z [v] := NodeOKL.cons h NodeOKL.nil
+theorem NodeOKL.two {v w : Tree} (h : NodeOK Z v) (h' : NodeOK Z w) : NodeOKL Z [v, w] := NodeOKL.cons h (NodeOKL.one h')
+
+theorem PReal.ok {lo hi : Pos} {v : Tree} (h : PReal Z lo hi v) : NodeOK Z v := h.1.2.2.1
+theorem PLeaf.ok {lo hi : Pos} {v : Tree} (h : PLeaf Z lo hi v) : NodeOK Z v := h.item.2.2.1
+
+/-! ## the tables of postconditions -/
+
+/-- a node that only has to pass the checkers (annotations yield `AstEmpty::default()`, whose range is `0:0-0:0`) -/
+def PNodeOK (Z : Pos) : Post := fun lo hi v => NodeOK Z v ∧ lo.le hi = true
+
+/-- the top-level list: every item passes the checkers -/
+def PTopList (Z : Pos) : Post := fun lo hi v => ∃ l, v = Tree.list l ∧ NodeOKL Z l ∧ lo.le hi = true
+
+/-- a loop value `#seq [#list items, end]` -/
+def PLoop (Z : Pos) (Qe : Post) : Post := PSeqN [PList (PReal Z), POpt Qe]
+
+/-- events of an `if` block: statements, `#seq [leaf ElseIf, cond]`, `leaf Else`, `leaf EndIf|End`, `#noend` -/
+def PEvent (Z : Pos) : Post := fun lo hi v =>
+  PReal Z lo hi v ∨ PLeaf Z lo hi v ∨ (∃ t c, v = Tree.seq [Tree.leaf t, c] ∧ PSeqN [PLeaf Z, PReal Z] lo hi v) ∨ (v = noEnd ∧ lo.le hi = true)
+
+def QΓ (Z : Pos) : Nat → Post
+  | 0 => PTopList Z
+  | 1 => PReal Z
+  | 2 => PList (PLeaf Z)
+  | 3 | 4 | 5 | 6 | 7 | 8 | 9 | 10 | 11 | 12 => PList (PReal Z)
+  | 13 => PLoop Z (PLeaf Z)
+  | 14 | 15 => PList (PLeaf Z)
+  | 16 => PList (PReal Z)
+  | 17 | 18 | 19 | 20 => PReal Z
+  | 21 | 22 | 23 | 24 | 25 | 26 | 27 | 28 | 29 | 30 | 31 | 32 => PTail Z
+  | 33 | 34 => PList (PEvent Z)
+  | 35 | 36 | 37 | 38 | 39 => PLoop Z (PLeaf Z)
+  | 40 => PLoop Z (PReal Z)
+  | 41 | 42 => PList (PReal Z)
+  | 43 => PReal Z
+  | 44 => POpt (PReal Z)
+  | 45 | 46 | 47 => PReal Z
+  | 48 => PNodeOK Z
+  | 49 | 50 => PReal Z
+  | _ => fun lo hi v => v = Tree.none ∧ lo.le hi = true
+
+def QΔ (Z : Pos) : Nat → Post
+  | 0 | 1 | 2 => PReal Z
+  | _ => fun lo hi v => v = Tree.none ∧ lo.le hi = true
+
+/-! ## expressions -/
+
+section
+variable (hc : Ctx Γ Δ Z (QΓ Z) (QΔ Z) F)
+include hc
+
+theorem r_expr : Der Γ Δ Z F (.ref nExpr) (PReal Z) := hc.1 nExpr
+theorem r_primary : Der Γ Δ Z F (.ref nPrimary) (PReal Z) := hc.1 nPrimary
+theorem r_dotOps : Der Γ Δ Z F (.ref nDotOps) (PReal Z) := hc.1 nDotOps
+theorem r_identifier : Der Γ Δ Z F (.ref nIdentifier) (PReal Z) := hc.1 nIdentifier
+theorem r_literalBasic : Der Γ Δ Z F (.ref nLiteralBasic) (PReal Z) := hc.1 nLiteralBasic
+theorem r_methodCall : Der Γ Δ Z F (.ref nMethodCall) (PReal Z) := hc.1 nMethodCall
+theorem r_compare : Der Γ Δ Z F (.ref nCompare) (PReal Z) := hc.1 nCompare
+theorem r_typeBasic : Der Γ Δ Z F (.ref nTypeBasic) (PReal Z) := hc.1 nTypeBasic
+theorem r_type : Der Γ Δ Z F (.ref nType) (PReal Z) := hc.1 nType
+theorem r_statement : Der Γ Δ Z F (.ref nStatement) (PReal Z) := hc.1 nStatement
+theorem r_oqlExpr : Der Γ Δ Z F (.ref nOqlExpr) (PReal Z) := hc.1 nOqlExpr
+
+omit hc in
+theorem d_gIdentifier : Der Γ Δ Z F gIdentifier (PReal Z) :=
+  Der.map (Der.toks _) (fun _ _ _ h => terminal_real h.item)
+
+omit hc in
+theorem d_gLiteralBasic : Der Γ Δ Z F gLiteralBasic (PReal Z) :=
+  Der.map (Der.toks _) (fun _ _ _ h => terminal_real h.item)
+
+omit hc in
+theorem d_gTypeBasic : Der Γ Δ Z F gTypeBasic (PReal Z) :=
+  Der.map (Der.tok _) (fun _ _ _ h => wrap_real (by decide) (by decide) h.item NodeOKL.nil)
+
+theorem d_gLiteralSet : Der Γ Δ Z F gLiteralSet (PReal Z) := by
+  unfold gLiteralSet
+  refine Der.map (Q := PSeqN [PLeaf Z, PList (PReal Z), PLeaf Z]) ?_ ?_
+  · der_seq
+    · exact Der.tok _
+    · exact Der.sepListCtx (r_primary hc) (hc.1 nPrimaryRec)
+    · exact Der.tok _
+  · rintro lo hi v ⟨_, rfl, v0, _, m1, rfl, h0, v1, _, m2, rfl, ⟨l, rfl, hl⟩, v2, _, m3, rfl, h2, rfl, hend⟩
+    shape_simp
+    have f0 := h0.item.facts; have f2 := h2.item.facts; have := PListL.le good_real hl
+    exact span_real (by decide) (by decide) h0.item (by pos_chain) h2.ok (by pos_chain) (hl.nodeOK good_real)
+
+theorem d_gMethodCallBody : Der Γ Δ Z F gMethodCallBody (PReal Z) := by
+  unfold gMethodCallBody
+  refine Der.map (Q := PSeqN [PReal Z, PLeaf Z, PList (PReal Z), PLeaf Z]) ?_ ?_
+  · der_seq
+    · exact r_identifier hc
+    · exact Der.tok _
+    · exact Der.sepListCtx (r_expr hc) (hc.1 nExprRec)
+    · exact Der.tok _
+  · rintro lo hi v ⟨_, rfl, v0, _, m1, rfl, h0, v1, _, m2, rfl, h1, v2, _, m3, rfl, ⟨l, rfl, hl⟩, v3, _, m4, rfl, h3, rfl, hend⟩
+    shape_simp
+    have f0 := h0.1.facts; have f1 := h1.item.facts; have f3 := h3.item.facts; have := PListL.le good_real hl
+    exact span_real (by decide) (by decide) h0.1 (by pos_chain) h3.ok (by pos_chain) (hl.nodeOK good_real)
+
+theorem d_gArrayAccess : Der Γ Δ Z F gArrayAccess (PReal Z) := by
+  unfold gArrayAccess
+  refine Der.map (Q := PSeqN [PReal Z, PLeaf Z, PReal Z, PLeaf Z]) ?_ ?_
+  · der_seq
+    · exact r_identifier hc
+    · exact Der.tok _
+    · exact r_expr hc
+    · exact Der.tok _
+  · rintro lo hi v ⟨_, rfl, v0, _, m1, rfl, h0, v1, _, m2, rfl, h1, v2, _, m3, rfl, h2, v3, _, m4, rfl, h3, rfl, hend⟩
+    shape_simp
+    have f0 := h0.1.facts; have f1 := h1.item.facts; have f2 := h2.1.facts; have f3 := h3.item.facts
+    exact span_real (by decide) (by decide) h0.1 (by pos_chain) h3.ok (by pos_chain) (NodeOKL.two h0.ok h2.ok)
+
+theorem d_gDotOp : Der Γ Δ Z F gDotOp (PReal Z) := by
+  unfold gDotOp
+  der_alt
+  · exact r_methodCall hc
+  · exact d_gArrayAccess hc
+  · exact r_identifier hc
+
+theorem d_gDotOps : Der Γ Δ Z F gDotOps (PReal Z) := Der.binOps (d_gDotOp hc) (hc.1 nDotTail)
+
+theorem d_gDotTail : Der Γ Δ Z F gDotTail (PTail Z) :=
+  Der.binTail (Der.toks _) (Der.catchErr (d_gDotOp hc)) (hc.1 nDotTail)
+
+theorem d_gBracketClosure : Der Γ Δ Z F gBracketClosure (PReal Z) := by
+  unfold gBracketClosure
+  refine Der.map (Q := PSeqN [PLeaf Z, PReal Z, PLeaf Z]) ?_ ?_
+  · der_seq
+    · exact Der.tok _
+    · exact r_expr hc
+    · exact Der.tok _
+  · rintro lo hi v ⟨_, rfl, v0, _, m1, rfl, h0, v1, _, m2, rfl, h1, v2, _, m3, rfl, h2, rfl, hend⟩
+    shape_simp
+    have f0 := h0.item.facts; have f2 := h2.item.facts
+    exact good_real.mono h1 (by pos_chain) (by pos_chain)
+
+theorem d_gUnaryPre : Der Γ Δ Z F gUnaryPre (PReal Z) := by
+  unfold gUnaryPre
+  refine Der.map (Q := PSeqN [PLeaf Z, PReal Z]) ?_ ?_
+  · der_seq
+    · exact Der.toks _
+    · exact r_primary hc
+  · rintro lo hi v ⟨_, rfl, v0, _, m1, rfl, h0, v1, _, m2, rfl, h1, rfl, hend⟩
+    shape_simp
+    have f0 := h0.item.facts; have f1 := h1.1.facts
+    exact span_real (by decide) (by decide) h0.item (by pos_chain) h1.ok (by pos_chain) (NodeOKL.one h1.ok)
+
+theorem d_gUnaryPost : Der Γ Δ Z F gUnaryPost (PReal Z) := by
+  unfold gUnaryPost
+  refine Der.map (Q := PSeqN [PReal Z, PLeaf Z]) ?_ ?_
+  · der_seq
+    · exact r_dotOps hc
+    · exact Der.toks _
+  · rintro lo hi v ⟨_, rfl, v0, _, m1, rfl, h0, v1, _, m2, rfl, h1, rfl, hend⟩
+    shape_simp
+    have f0 := h0.1.facts; have f1 := h1.item.facts
+    exact span_real (by decide) (by decide) h0.1 (by pos_chain) h1.ok (by pos_chain) (NodeOKL.one h0.ok)
+
+theorem d_gPrimaryBody : Der Γ Δ Z F gPrimaryBody (PReal Z) := by
+  unfold gPrimaryBody
+  der_alt
+  · exact d_gBracketClosure hc
+  · exact Der.alt (d_gUnaryPre hc) (d_gUnaryPost hc)
+  · exact r_dotOps hc
+  · exact Der.alt (r_literalBasic hc) (d_gLiteralSet hc)
+
+theorem d_gFactors : Der Γ Δ Z F gFactors (PReal Z) := Der.binOps (r_primary hc) (hc.1 nFactorTail)
+theorem d_gTerms : Der Γ Δ Z F gTerms (PReal Z) := Der.binOps (d_gFactors hc) (hc.1 nTermTail)
+theorem d_gBit1 : Der Γ Δ Z F gBit1 (PReal Z) := Der.binOps (d_gTerms hc) (hc.1 nBit1Tail)
+theorem d_gBit2 : Der Γ Δ Z F gBit2 (PReal Z) := Der.binOps (d_gBit1 hc) (hc.1 nBit2Tail)
+theorem d_gShifts : Der Γ Δ Z F gShifts (PReal Z) := Der.binOps (d_gBit2 hc) (hc.1 nShiftTail)
+theorem d_gCompare : Der Γ Δ Z F gCompare (PReal Z) := Der.binOps (d_gShifts hc) (hc.1 nCompareTail)
+theorem d_gAnd : Der Γ Δ Z F gAnd (PReal Z) := Der.binOps (r_compare hc) (hc.1 nAndTail)
+theorem d_gOr : Der Γ Δ Z F gOr (PReal Z) := Der.binOps (d_gAnd hc) (hc.1 nOrTail)
+
+theorem d_gFactorTail : Der Γ Δ Z F gFactorTail (PTail Z) := Der.binTail' (Der.toks _) (r_primary hc) (hc.1 nFactorTail)
+theorem d_gTermTail : Der Γ Δ Z F gTermTail (PTail Z) := Der.binTail' (Der.toks _) (d_gFactors hc) (hc.1 nTermTail)
+theorem d_gBit1Tail : Der Γ Δ Z F gBit1Tail (PTail Z) := Der.binTail' (Der.toks _) (d_gTerms hc) (hc.1 nBit1Tail)
+theorem d_gBit2Tail : Der Γ Δ Z F gBit2Tail (PTail Z) := Der.binTail' (Der.toks _) (d_gBit1 hc) (hc.1 nBit2Tail)
+theorem d_gShiftTail : Der Γ Δ Z F gShiftTail (PTail Z) := Der.binTail' (Der.toks _) (d_gBit2 hc) (hc.1 nShiftTail)
+theorem d_gCompareTail : Der Γ Δ Z F gCompareTail (PTail Z) := Der.binTail' (Der.toks _) (d_gShifts hc) (hc.1 nCompareTail)
+theorem d_gAndTail : Der Γ Δ Z F gAndTail (PTail Z) := Der.binTail' (Der.toks _) (r_compare hc) (hc.1 nAndTail)
+theorem d_gOrTail : Der Γ Δ Z F gOrTail (PTail Z) := Der.binTail' (Der.toks _) (d_gAnd hc) (hc.1 nOrTail)
+
+end
 
 end Gold.C08
